@@ -722,9 +722,34 @@ def p6(ctx, R):
         ctx.violation("P6", f, "must-follow-bypassed", "a command can be recorded without its must_follow constraint having been enforced",
                       node=recs[0], witness="`else { keep; }` without a preceding `if` is accepted")
     # predecessor source
-    src = norm(f.node)
-    top = "self.result[-1]" in src
-    nested = ".parent.children[-2]" in src
+    aliases = {}
+    for a in walk_no_nested(f.node):
+        if isinstance(a, ast.Assign) and isinstance(a.targets[0], ast.Name) and isinstance(a.value, ast.Attribute):
+            aliases[a.targets[0].id] = a.value.attr
+    top = nested = False
+    parent_names = {n_ for n_, at in aliases.items() if at == "parent"}
+
+    def parent_fact(want):
+        def pred(fc):
+            e, pol = fact_atom(fc)
+            is_parent = (isinstance(e, ast.Attribute) and e.attr == "parent") or (isinstance(e, ast.Name) and e.id in parent_names)
+            return is_parent and pol is want
+        return pred
+    for s_ in walk_no_nested(f.node):
+        if isinstance(s_, ast.Subscript) and isinstance(s_.ctx, ast.Load):
+            k = const_value(ctx.program, f, s_.slice)
+            base = s_.value.attr if isinstance(s_.value, ast.Attribute) else (aliases.get(s_.value.id) if isinstance(s_.value, ast.Name) else None)
+            nodes = cfg.node_containing(s_)
+            if k == -1 and base == "result":
+                top = True
+                if not (nodes and all(cfg.guarded(x, parent_fact(False)) for x in nodes)):
+                    ctx.violation("P6", f, "predecessor-toplevel-for-nested", "the last top-level command is used as predecessor on a path where the "
+                                  "command has a parent (is nested)", node=s_,
+                                  witness="`if true {keep;} if false { else {stop;} }`: the nested else is accepted because the previous TOP-LEVEL command is an if")
+            if k == -2 and base == "children":
+                nested = True
+                if not (nodes and all(cfg.guarded(x, parent_fact(True)) for x in nodes)):
+                    ctx.violation("P6", f, "predecessor-sibling-unguarded", "the previous sibling is looked up without the command having a parent", node=s_)
     if top and nested:
         ctx.holds("P6", "predecessor = result[-1] (top level) / parent.children[-2] (nested: the command itself is already children[-1])")
     else:
